@@ -1,60 +1,244 @@
-// c27: encoded objects decode to the same object (hash, validity, re-encoded bytes).
+// c27: encoded objects decode to the same object (same type, hash, validity; re-encoding gives the same bytes).
+//
+// Oracle (the property's own statement, on the real code): every generated valid instance of every type
+// registered in launch/hinters.go is encoded with the JSON encoder loaded with launch.LoadHinters, decoded
+// back through the hint dispatch, and compared: Go type, Hash()/HashBytes()/hint, IsValid result, re-encoded
+// bytes.  Correspondence: the keys actually present in / consumed from the real JSON are compared with the
+// codec tables the translator extracted from the source (coq/Gen/Codecs.v) by the Coq model's `check`.
 package main
 
 import (
 	"bytes"
+	"encoding/json"
 	"fmt"
 	"reflect"
+	"sort"
 
-	"github.com/spikeekips/mitum/util"
+	"github.com/spikeekips/mitum/base"
+	"github.com/spikeekips/mitum/isaac"
+	"github.com/spikeekips/mitum/network/quicmemberlist"
+	"github.com/spikeekips/mitum/util/fixedtree"
+	"github.com/spikeekips/mitum/util/hint"
 	"verifharness/cmd/c27/gen"
 	"verifharness/vh"
 )
 
+type replay struct {
+	Seed uint64 `json:"seed"`
+	Kind string `json:"kind"`
+	JSON string `json:"json"`
+}
+
+func zeroish(v any) bool {
+	switch x := v.(type) {
+	case nil:
+		return true
+	case string:
+		return x == ""
+	case bool:
+		return !x
+	case json.Number:
+		return x.String() == "0"
+	case []any:
+		return len(x) == 0
+	case map[string]any:
+		return len(x) == 0
+	}
+	return false
+}
+
+func strList(ss []string) string {
+	out := make([]string, len(ss))
+	for i, s := range ss {
+		out[i] = vh.Str(s)
+	}
+	return vh.List(out)
+}
+
+// hintOfObj: the registered hint string of an object that does not carry "_hint" in its own encoding.
+func hintOfObj(v any) string {
+	switch v.(type) {
+	case base.OperationFixedtreeNode:
+		return base.OperationFixedtreeHint.String()
+	case fixedtree.BaseNode:
+		return base.StateFixedtreeHint.String()
+	}
+	if h, ok := v.(hint.Hinter); ok {
+		for _, r := range gen.AllHints() {
+			if rh, err := hint.ParseHint(r); err == nil && rh.Type() == h.Hint().Type() {
+				return r
+			}
+		}
+		return h.Hint().String()
+	}
+	return ""
+}
+
 func main() {
 	o := vh.ParseFlags()
+	res := vh.NewResult("random valid instances of every type registered in launch.Hinters / SupportedProposalOperationFactHinters " +
+		"(repository constructors, real signatures), JSON-encoded, decoded by hint, compared on Go type, Hash/HashBytes, IsValid, re-encoded bytes; " +
+		"non-trivial = object carries at least one nested hinted value or a hash")
 	r := vh.NewRand(o.Seed)
 	w := gen.NewWorld(r)
-	for _, ob := range w.All() {
+	cases := &vh.Cases{Import: "From MV Require Import C27.Model.", Type: "case", CheckFn: "check", Shard: 400}
+	rounds := o.Pick(14, 300)
+	seenCase := map[string]bool{}
+	seenHint := map[string]int{}
+
+	checkOne := func(ob gen.Obj, round int) {
+		fail := func(class, desc string, b []byte) {
+			if _, isMember := ob.V.(quicmemberlist.BaseMember); isMember {
+				class = "member-json-roundtrip"
+			}
+			res.Fail(class, ob.Kind+": "+desc, replay{o.Seed, ob.Kind, string(b)})
+		}
 		b, err := w.Enc.Marshal(ob.V)
 		if err != nil {
-			fmt.Println("MARSHAL", ob.Kind, err)
-			continue
+			fail("marshal-failed", err.Error(), nil)
+			return
 		}
+		ht := gen.HintOf(b)
+		if ht == "" {
+			ht = hintOfObj(ob.V)
+		}
+		seenHint[ht]++
+		res.Dist("type:" + ob.Kind)
+		tag, dg := gen.Digest(ob.V)
+		res.Count(ob.Kind+fmt.Sprintf("#%d", round), len(b) > 200 || tag != "h")
 		d, err := w.Decode(ob.V, b)
 		if err != nil {
-			fmt.Println("DECODE", ob.Kind, err)
-			continue
+			fail("decode-failed", err.Error(), b)
+			return
+		}
+		if p, ok := d.(*isaac.Params); ok {
+			// the network id is not part of the encoding of Params: every user sets it after decoding
+			_ = p.SetNetworkID(w.NetworkID)
 		}
 		if reflect.TypeOf(d) != reflect.TypeOf(ob.V) {
-			fmt.Println("TYPE", ob.Kind, reflect.TypeOf(d), reflect.TypeOf(ob.V))
+			fail("type-changed", fmt.Sprintf("%T -> %T", ob.V, d), b)
+			return
 		}
-		b2, _ := w.Enc.Marshal(d)
-		if !bytes.Equal(b, b2) {
+		tag2, dg2 := gen.Digest(d)
+		if tag != tag2 || !bytes.Equal(dg, dg2) {
+			fail("hash-changed", fmt.Sprintf("digest(%s) %x -> digest(%s) %x", tag, dg, tag2, dg2), b)
+		}
+		var nid []byte
+		if ob.NID {
+			nid = w.NetworkID
+		}
+		e1, ok1 := gen.IsValid(ob.V, nid)
+		e2, ok2 := gen.IsValid(d, nid)
+		switch {
+		case ok1 != ok2 || (e1 == nil) != (e2 == nil):
+			fail("validity-changed", fmt.Sprintf("IsValid before: %v; after: %v", e1, e2), b)
+		case e1 != nil:
+			// the generators only build valid objects: an invalid one is a harness/generator problem, not the property
+			res.Note(fmt.Sprintf("generator produced an invalid %s: %v", ob.Kind, e1))
+			res.Dist("generator-invalid")
+		}
+		b2, err := w.Enc.Marshal(d)
+		switch {
+		case err != nil:
+			fail("reencode-failed", err.Error(), b)
+		case !bytes.Equal(b, b2):
 			if bytes.Equal(gen.Canonical(b), gen.Canonical(b2)) {
-				fmt.Println("REENCODE-ORDER", ob.Kind)
+				fail("reencode-map-key-order", "re-encoded bytes differ only in the order of object members", b)
 			} else {
-				fmt.Println("REENCODE", ob.Kind, string(b), string(b2))
+				fail("reencode-differs", fmt.Sprintf("re-encoded: %.300s", string(b2)), b)
 			}
 		}
-		if v, ok := ob.V.(util.IsValider); ok {
-			var nid []byte
-			if ob.Signed {
-				nid = w.NetworkID
+		if round < 3 && len(res.Samples) < 6 && len(b) < 700 {
+			res.Sample(map[string]any{"kind": ob.Kind, "json": string(b)})
+		}
+
+		// ---- correspondence case: keys of the real JSON vs. the extracted tables
+		root, err := gen.ParseJSON(b)
+		if err != nil {
+			fail("not-json", err.Error(), b)
+			return
+		}
+		m, isObj := root.(map[string]any)
+		if !isObj {
+			key := ht + "|<string>"
+			if !seenCase[key] {
+				seenCase[key] = true
+				cases.Add(vh.Tuple(vh.Str(ht), "[]", "[]", "[]"), map[string]any{"hint": ht, "kind": ob.Kind, "encoded": "string"})
 			}
-			e1 := v.IsValid(nid)
-			e2 := d.(util.IsValider).IsValid(nid)
-			if e1 != nil || e2 != nil {
-				fmt.Println("ISVALID", ob.Kind, e1, e2)
+			return
+		}
+		var present, consumed, nonzero []string
+		ref := gen.Canonical(b2)
+		for k, v := range m {
+			present = append(present, k)
+			if !zeroish(v) {
+				nonzero = append(nonzero, k)
 			}
-			if ob.Signed {
-				if e3 := v.IsValid(w.OtherID); e3 == nil {
-					fmt.Println("OTHERID-VALID", ob.Kind)
+			// remove the key: is the decoded object any different?
+			m2 := map[string]any{}
+			for k2, v2 := range m {
+				if k2 != k {
+					m2[k2] = v2
 				}
 			}
-		} else {
-			fmt.Println("NOT-ISVALIDER", ob.Kind)
+			dd, err := w.Decode(ob.V, gen.RenderJSON(m2))
+			if err != nil {
+				consumed = append(consumed, k)
+				continue
+			}
+			bb, err := w.Enc.Marshal(dd)
+			if err != nil || !bytes.Equal(gen.Canonical(bb), ref) {
+				consumed = append(consumed, k)
+			}
 		}
-		fmt.Println("ok", ob.Kind, len(b))
+		sort.Strings(present)
+		sort.Strings(consumed)
+		sort.Strings(nonzero)
+		key := fmt.Sprintf("%s|%v|%v|%v", ht, present, consumed, nonzero)
+		if !seenCase[key] || round < 4 {
+			seenCase[key] = true
+			cases.Add(vh.Tuple(vh.Str(ht), strList(present), strList(consumed), strList(nonzero)),
+				map[string]any{"hint": ht, "kind": ob.Kind, "present": present, "consumed": consumed, "nonzero": nonzero})
+		}
 	}
+
+	if o.Replay != "" {
+		var rp replay
+		if err := vh.ReadReplay(o.Replay, &rp); err == nil && rp.JSON != "" {
+			d, err := w.Enc.Decode([]byte(rp.JSON))
+			fmt.Printf("replay %s: decode err=%v type=%T\n", rp.Kind, err, d)
+			if err == nil {
+				b2, _ := w.Enc.Marshal(d)
+				fmt.Printf("re-encoded equal=%v\n", bytes.Equal([]byte(rp.JSON), b2))
+			}
+		}
+	}
+
+	for round := 0; round < rounds; round++ {
+		if round%5 == 4 {
+			w = gen.NewWorld(r) // fresh nodes / network id
+		}
+		for _, ob := range w.All() {
+			checkOne(ob, round)
+		}
+	}
+
+	// every registered hint must have been exercised at top level or the run says so
+	var missing []string
+	for _, h := range gen.AllHints() {
+		if seenHint[h] == 0 {
+			missing = append(missing, h)
+		}
+	}
+	if len(missing) > 0 {
+		res.Note(fmt.Sprintf("registered hints only exercised nested (not as a top-level object): %v", missing))
+	}
+	res.Distribution["registered_hints"] = len(gen.AllHints())
+	res.Distribution["hints_top_level"] = len(seenHint)
+	res.ModelCases = cases.Len()
+	if err := cases.Write(o.Out); err != nil {
+		panic(err)
+	}
+	res.Write(o.Out)
+	_ = base.NilHeight
 }
